@@ -174,6 +174,9 @@ var c10Queries2 = []string{
 	"SELECT * FROM nosuch x JOIN t y ON x.a = y.a",
 	"SELECT * FROM t x JOIN nosuch y ON x.a = y.a",
 	"SELECT * FROM `t.arr` x JOIN t y ON x.a = y.a",
+	// expressions evaluated by post processors (AWAIT reads its arguments after the row loop)
+	"SELECT AWAIT(ELEMENTAT(arr, -1)) AS x FROM t",
+	"SELECT AWAIT(ELEMENTAT(arr, 7)) AS x, AWAIT(a DIV 0) AS y FROM t",
 }
 
 // H_C10_queries2: the second list under the option combinations.
@@ -408,6 +411,23 @@ func H_C10_reexec() {
 		res, err3 := q2.Exec()
 		verif.Assert(err3 == nil && len(res) == 2, "later-query-returns")
 	}
+	verif.Drain()
+	verif.Reach("end")
+}
+
+// H_C10_scope_cycle: the navigation scope selected as a value inside a CTE
+// body, the CTE rows then formatted by DISTINCT (the scope reaches the CTE's
+// own result through the query's data: a cycle).
+func H_C10_scope_cycle() {
+	form := verif.Choose("form", 3)
+	sql := []string{
+		"WITH c AS (SELECT (SELECT `<-` AS up FROM dual) AS y FROM t) SELECT DISTINCT * FROM c",
+		"WITH c AS (SELECT `<-` AS up FROM t) SELECT DISTINCT * FROM c",
+		"WITH c AS (SELECT (SELECT `<-` AS up FROM dual) AS y FROM t) SELECT * FROM c",
+	}[form]
+	a := float64(1)
+	doc := Map{"t": []any{Map{"a": a}, Map{"a": float64(2)}}}
+	newExec(doc, sql)
 	verif.Drain()
 	verif.Reach("end")
 }
